@@ -395,19 +395,34 @@ class Ctx:
     """Solver-driven case split of an integer term over its feasible values."""
     iterm = z3.simplify(iterm)
     if z3.is_int_value(iterm): return iterm.as_long()
-    cap = cap or self.caps.get("int_split", 64)
-    for _ in range(cap):
+    cap = cap or self.caps.get("int_split", 300)
+    for attempt in range(cap):
       if self.pos < len(self.prefix):
         v = self.prefix[self.pos]["v"]
         if v is None: raise EngineError("prefix desynchronised (expected value split)")
       else:
-        qc = self._qclass([iterm == 0])
-        m = self.models.get(qc)
-        if m is None:
-          r, m = self.check([], cls=qc)
-          if r != "sat":
-            raise Unsupported("no model for the path condition while splitting an integer (%s)" % r)
-        v = m.eval(iterm, model_completion=True).as_long()
+        v = None
+        if attempt < 2:
+          # boundary values first: the largest, then the smallest feasible value (table look-ups, ranges and slices
+          # go wrong at their ends) - a short optimisation query over the integer constraints, any model as fall-back
+          try:
+            opt = z3.Optimize(); opt.set("timeout", 1500)
+            for e, c in self.pc:
+              if "int" in c: opt.add(e)
+            (opt.maximize if attempt == 0 else opt.minimize)(iterm)
+            if str(opt.check()) == "sat":
+              cand = opt.model().eval(iterm, model_completion=True)
+              if z3.is_int_value(cand): v = cand.as_long()
+          except z3.Z3Exception:
+            v = None
+        if v is None:
+          qc = self._qclass([iterm == 0])
+          m = self.models.get(qc)
+          if m is None:
+            r, m = self.check([], cls=qc)
+            if r != "sat":
+              raise Unsupported("no model for the path condition while splitting an integer (%s)" % r)
+          v = m.eval(iterm, model_completion=True).as_long()
       if self.decide(iterm == v, v=v):
         if z3.is_const(iterm) and iterm.decl().kind() == z3.Z3_OP_UNINTERPRETED:
           self.bound[iterm.get_id()] = v
